@@ -468,7 +468,7 @@ def run_bitflip(case):
 
 
 def jobs(tier, seed):
-    k = 1 if tier == "quick" else 40
+    k = 1 if tier == "quick" else 30
     js = []
     for s in range(11):
         js.append({"fn": "vf.props.c03:job_histories", "args": {"n": 60 * k, "seed": seed * 1000 + s}})
